@@ -388,3 +388,74 @@ def fn_generics(name):
                         return out
     _fn_generics[name] = out
     return out
+
+
+_field_types = None
+
+
+def field_types():
+    """{TypeName: ('struct', [(field, type)]) | ('tuple', [types]) | ('enum', {variant: ('unit',) | ('tuple', [types]) | ('struct', [(f, t)])})}
+    for the repository's types (used to load serde JSON into the value domain)"""
+    global _field_types
+    if _field_types is not None:
+        return _field_types
+    out = {}
+    for root in ("crates", "bin"):
+        for dp, _, files in os.walk(os.path.join(REPO, root)):
+            if "/target" in dp:
+                continue
+            for f in sorted(files):
+                if f.endswith(".rs"):
+                    _scan_field_types(open(os.path.join(dp, f)).read(), out)
+    _field_types = out
+    return out
+
+
+def _fields_with_types(body):
+    fs = []
+    for part in split_top(body):
+        mm = re.match(r"(?:pub(?:\([^)]*\))?\s+)?(?:r#)?(\w+)\s*:\s*(.*)$", part.strip(), re.S)
+        if mm:
+            fs.append((mm.group(1), mm.group(2).strip()))
+    return fs
+
+
+def _tuple_types(body):
+    return [re.sub(r"^pub(?:\([^)]*\))?\s+", "", x.strip()) for x in split_top(body)]
+
+
+def _scan_field_types(src, out):
+    src = _strip_comments(src)
+    for m in re.finditer(r"\b(struct|enum)\s+(\w+)\s*(<[^>{(;]*>)?\s*(where[^{;(]*)?([{(;])", src):
+        kind, name, opener = m.group(1), m.group(2), m.group(5)
+        if opener == ";" or name in out:
+            continue
+        start = m.end() - 1
+        depth, i = 0, start
+        close = {"{": "}", "(": ")"}[opener]
+        while i < len(src):
+            if src[i] == opener:
+                depth += 1
+            elif src[i] == close:
+                depth -= 1
+                if depth == 0:
+                    break
+            i += 1
+        body = re.sub(r"#\[[^\]]*\]", "", src[start + 1:i])
+        if kind == "struct":
+            out[name] = ("tuple", _tuple_types(body)) if opener == "(" else ("struct", _fields_with_types(body))
+        else:
+            vs = {}
+            for part in split_top(body):
+                part = part.strip()
+                if not part:
+                    continue
+                mm = re.match(r"(\w+)\s*(.*)$", part, re.S)
+                vname, rest = mm.group(1), mm.group(2).strip()
+                if rest.startswith("("):
+                    vs[vname] = ("tuple", _tuple_types(rest[1:rest.rindex(")")]))
+                elif rest.startswith("{"):
+                    vs[vname] = ("struct", _fields_with_types(rest[1:rest.rindex("}")]))
+                else:
+                    vs[vname] = ("unit",)
+            out[name] = ("enum", vs)
